@@ -62,7 +62,30 @@ theorem unbase64Raw_base64Raw : (b : Bytes) → unbase64Raw (base64Raw b) = some
     simp only [h6, UInt8.ofNat_toNat]
   | [] => by simp [base64Raw, unbase64Raw]
 
+theorem b64Char_notNL_fin : ∀ n : Fin 64, (b64Char n.val != 0x0a && b64Char n.val != 0x0d) = true := by decide
+
+theorem b64Char_notNL (n : Nat) (h : n < 64) : (b64Char n != 0x0a && b64Char n != 0x0d) = true :=
+  b64Char_notNL_fin ⟨n, h⟩
+
+theorem stripNL_base64Raw : (b : Bytes) → stripNL (base64Raw b) = base64Raw b
+  | x :: y :: z :: rest => by
+    have ih := stripNL_base64Raw rest
+    simp only [stripNL] at ih ⊢
+    simp only [base64Raw, List.filter_cons]
+    have hx := x.toNat_lt; have hy := y.toNat_lt; have hz := z.toNat_lt
+    rw [if_pos (b64Char_notNL _ (by omega)), if_pos (b64Char_notNL _ (by omega)), if_pos (b64Char_notNL _ (by omega)),
+      if_pos (b64Char_notNL _ (by omega)), ih]
+  | [x, y] => by
+    simp only [stripNL, base64Raw, List.filter_cons, List.filter_nil]
+    have hx := x.toNat_lt; have hy := y.toNat_lt
+    rw [if_pos (b64Char_notNL _ (by omega)), if_pos (b64Char_notNL _ (by omega)), if_pos (b64Char_notNL _ (by omega))]
+  | [x] => by
+    simp only [stripNL, base64Raw, List.filter_cons, List.filter_nil]
+    have hx := x.toNat_lt
+    rw [if_pos (b64Char_notNL _ (by omega)), if_pos (b64Char_notNL _ (by omega))]
+  | [] => rfl
+
 theorem decodeB64_base64Raw (b : Bytes) : decodeB64 (base64Raw b) = some b := by
-  simp only [decodeB64, unbase64Raw_base64Raw]
+  simp only [decodeB64, stripNL_base64Raw, unbase64Raw_base64Raw]
 
 end Ipld.Json
